@@ -88,11 +88,12 @@ DivForms(e, T, kind, part) ==
     LET x == AV(e.a[1])
         y == AV(e.a[2])
     IN IF ZIsZero(y)
-       THEN [f \in Forms(e) |-> IF f = "checked" THEN ONone ELSE OPanic]
+       THEN [f \in Forms(e) |-> IF CanonForm(f) = "checked" THEN ONone ELSE OPanic]
        ELSE LET qr == DivPair(kind, x, y)
                 v  == qr[part]
                 ov == IsMinNeg1(T, x, y)
-            IN [f \in Forms(e) |->
+            IN [ff \in Forms(e) |->
+                  LET f == CanonForm(ff) IN
                   CASE f = "checked"     -> IF ov THEN ONone ELSE OSome(T, v)
                     [] f = "overflowing" -> OPair(T, Wrap(T, v), ov)
                     [] f = "wrapping"    -> OVal(T, Wrap(T, v))
@@ -153,7 +154,8 @@ PowForms(e, T) ==
         fits == ~pe.over /\ InRange(T, p)
         wrapped == ValOf(T, PowPat(T, x, ex))
         negres == x.neg /\ IsOddNat(ex)
-    IN [f \in Forms(e) |->
+    IN [ff \in Forms(e) |->
+          LET f == CanonForm(ff) IN
           CASE f = "overflowing" -> OPair(T, wrapped, ~fits)
             [] f = "checked"     -> IF fits THEN OSome(T, p) ELSE ONone
             [] f = "wrapping"    -> OVal(T, wrapped)
